@@ -425,13 +425,17 @@ class Report:
 
 
 def load_known(pid):
-    path = os.path.join(VERIF, 'KNOWN_FINDINGS.jsonl')
+    """KNOWN_FINDINGS.txt: `known: {json}` lines are recorded (unrepaired) defects,
+    `fixed: property=<id> <commit> <what failed>` lines are repaired ones (they
+    suppress nothing)."""
+    path = os.path.join(VERIF, 'KNOWN_FINDINGS.txt')
     out = []
     if os.path.exists(path):
         for line in open(path):
             line = line.strip()
-            if line and not line.startswith('#'):
-                d = json.loads(line)
+            if line.startswith('known:'):
+                d = json.loads(line[len('known:'):])
+                d['status'] = 'known'
                 if d.get('property') == pid:
                     out.append(d)
     return out
